@@ -117,7 +117,7 @@ def check_case(ctx, case):
     return None
 
 
-COMPANIONS = ['+--+', 'abc', '-->', '*', '()', '/', '.-.', 'x y']
+COMPANIONS = ['+--+', 'abc', '-->', '*', '()', '/', '.-.', 'x y', 'k # Legend: none', '"# Legend:"', '# a = {b}']
 
 
 def run_shard(ctx, shard):
@@ -130,7 +130,8 @@ def run_shard(ctx, shard):
         if rng.random() < 0.4:
             comp = (rng.choice(COMPANIONS), rng.choice(['right', 'below']))
         case = {'idx': idx, 'art': art, 'ox': ox, 'oy': oy, 'companion': comp, 'two_step': rng.random() < 0.3}
-        if rng.random() < 0.2:
+        if rng.random() < 0.2 and not (comp and '"' in comp[0]):
+            # (quoted text is kept outside the cell map, the edited-buffer path cannot carry it)
             case['previous'] = rng.choice(['+--+\n|  |\n+--+\n', 'abc def\n', ' .-.\n(   )\n `-\'\n', '-->\n', '\n'])
         ctx.run_case(case)
     ctx.sample({'drawing': art, 'offsets': shard['offsets'][:3]})
